@@ -329,7 +329,48 @@ def rule_h(ctx):
     cleanup_on_every_path(ctx, "C14.h")
 
 
+def rule_i(ctx):
+    """iterator constructors report a refusal: in `SignalDelivery::with_pipe` (helpers inlined) the result of every `Handle::add_signal` call is
+    examined and, assuming it is never Ok, no `Ok(instance)` remains reachable after the call — an `Err` from registering one of the initial
+    signals cannot be swallowed (`let _ = ..`) into a successfully constructed instance that silently does not watch that signal"""
+    F = ctx.F
+    rid = "C14.i"
+    ctx.rule(rid, "the iterator constructor propagates a refused initial signal: no Ok(instance) is reachable from the Err outcome of Handle::add_signal", floor=1)
+    from .nf import NF
+    from .. import inline
+    from ..conds import switch_edges
+    n_calls = 0
+    for m0 in F.some("signal_hook::iterator::backend::SignalDelivery::<R, E>::with_pipe", what="SignalDelivery::with_pipe"):
+        n = NF(F, m0)
+        adds = [(bb, t) for bb, t in n.calls() if (t.get("def") or "").endswith("backend::Handle::add_signal") and not n.blocks[bb].get("dead")]
+        if not adds:
+            continue
+        ctx.fn(m0)
+        for bb, t in adds:
+            n_calls += 1
+            cut = set(); examined = False
+            for (b2, tgt, lab, exprs, t2) in switch_edges(n):
+                ex = [deep_strip(e) for e in exprs]
+                if ex and all(e[0] == "discr" and mentions(e, lambda x: x[0] == "call" and x[1] == bb) for e in ex):
+                    examined = True
+                    if lab == "sw:0" or (not lab.startswith("sw:") and 0 not in [v for v, _ in t2["vals"]]):
+                        cut.add((b2, tgt))
+            key = "constructor-propagates-refusal@%s" % keyname(m0.name)
+            if not examined:
+                ctx.bad(rid, key, "the result of Handle::add_signal is not examined in the constructor (a refused initial signal is swallowed)", t["sp"])
+                continue
+            n2 = inline.assuming(F, n, cut)
+            after = cfg.reachable(n2, bb, unwind=False) if not n2.blocks[bb].get("dead") else set()
+            oks = [b for b in after if any(st["k"] == "assign" and st["r"]["k"] == "aggregate" and st["r"].get("def") == "core::result::Result" and st["r"].get("variant") == "Ok"
+                                           and "SignalDelivery" in n2.local_ty(st["l"]["l"]) for st in n2.stmts(b))]
+            ctx.check(not oks, rid, key, "a refused initial signal makes the constructor fail", t["sp"],
+                      {"ok_still_reachable_at": [n2.term(b)["sp"].split("/")[-1] for b in oks][:3]})
+    if n_calls == 0:
+        raise AnchorLost("SignalDelivery::with_pipe no longer calls Handle::add_signal")
+
+
 def run(ctx):
+    ctx.guarded("C14.i", rule_i)
     ctx.guarded("C14.g", rule_g)
     ctx.guarded("C14.h", rule_h)
     ctx.guarded("C14.a", rule_a)
